@@ -382,11 +382,13 @@ func c07(c *engine.Ctx) {
 		}
 	}
 	{
-		callers := engine.CallerSet(p.RefsToFunc(gbG + "(*Realm).saveObject"))
 		allow := []string{gbG + "(*Realm).saveUnsavedObjectRecursively", gbG + "(*Realm).saveUnsavedObjects"}
-		c.Check("persist-refusal", "who-may-call saveObject", token.NoPos, len(callers) > 0 && len(engine.SetDiff(callers, allow)) == 0, "callers: "+join(callers))
-		callers = engine.CallerSet(p.RefsToFunc(gbG + "(*Realm).saveUnsavedObjectRecursively"))
-		c.Check("persist-refusal", "who-may-call saveUnsavedObjectRecursively", token.NoPos, len(callers) > 0 && len(engine.SetDiff(callers, allow)) == 0, "callers: "+join(callers))
+		refs := p.RefsToFunc(gbG + "(*Realm).saveObject")
+		callers := engine.CallerSet(refs)
+		c.Check("persist-refusal", "who-may-call saveObject", token.NoPos, len(callers) > 0 && len(p.UnexpectedCallers(refs, allow)) == 0, "callers: "+join(callers))
+		refs = p.RefsToFunc(gbG + "(*Realm).saveUnsavedObjectRecursively")
+		callers = engine.CallerSet(refs)
+		c.Check("persist-refusal", "who-may-call saveUnsavedObjectRecursively", token.NoPos, len(callers) > 0 && len(p.UnexpectedCallers(refs, allow)) == 0, "callers: "+join(callers))
 	}
 	if f := c.MustFunc(gbG + "refusePersistRealmHIV"); f != nil {
 		// a panic gated (true branch) by a comparison of the value's type with gConcreteRealmType
@@ -971,168 +973,198 @@ func gbIsCommaOkOfParamAssert(f *engine.Fn, cond ast.Expr, param int, typeSuffix
 	return found
 }
 
-// gbDidUpdateGates: structural presence of DidUpdate's three panics.
+// gbIsRealmVar: o is a variable (receiver/parameter/local) of type *Realm.
+func gbIsRealmVar(o types.Object) bool {
+	v, ok := o.(*types.Var)
+	return ok && engine.TypeName(v.Type()) == "*gnovm/pkg/gnolang.Realm"
+}
+
+// gbDidUpdateGates: presence of DidUpdate's three panics — found in DidUpdate
+// itself or in private helpers it calls — decided on the facts that hold at
+// each panic (polarity-aware, helper-transparent).
 func gbDidUpdateGates(c *engine.Ctx, f *engine.Fn, ruleBackstop, ruleP string) {
 	g := f.Graph()
 	info := f.Info()
-	recv := types.Object(nil)
-	if f.Decl != nil && f.Decl.Recv != nil && len(f.Decl.Recv.List) == 1 && len(f.Decl.Recv.List[0].Names) == 1 {
-		recv = info.ObjectOf(f.Decl.Recv.List[0].Names[0])
+	realmID := func(e ast.Expr) bool { // <realm var>.ID
+		sel, ok := ast.Unparen(e).(*ast.SelectorExpr)
+		return ok && sel.Sel.Name == "ID" && gbIsRealmVar(engine.ObjOf(info, sel.X))
 	}
-	if recv == nil {
-		c.Undecided(ruleBackstop, f.Name, "receiver not found")
-		return
+	type cls struct {
+		underNil, debug, imm, stdNeg, stage, neq bool
+		extra                                    string
 	}
-	isRecvNil := func(e ast.Expr, op token.Token) bool {
-		b, ok := ast.Unparen(e).(*ast.BinaryExpr)
-		return ok && b.Op == op && engine.ObjOf(info, b.X) == recv && isNil(b.Y)
-	}
-	hasCall := func(e ast.Expr, name string) (found, negated bool) {
-		for _, cj := range engine.Conjuncts(e, token.LAND) {
-			neg := false
-			x := ast.Unparen(cj)
-			if u, ok := x.(*ast.UnaryExpr); ok && u.Op == token.NOT {
-				neg = true
-				x = ast.Unparen(u.X)
-			}
-			if call, ok := x.(*ast.CallExpr); ok && gbCalleeName(info, call) == name {
-				return true, neg
-			}
-		}
-		return false, false
-	}
-	stageRun := func(e ast.Expr) bool {
-		for _, cj := range engine.Conjuncts(e, token.LAND) {
-			if b, ok := ast.Unparen(cj).(*ast.BinaryExpr); ok && b.Op == token.EQL {
-				if id, ok := ast.Unparen(b.Y).(*ast.Ident); ok && id.Name == "StageRun" {
-					return true
+	classify := func(fs []gbFact, strictExtra bool) cls {
+		var k cls
+		for _, ft := range fs {
+			if x, isNilHolds, ok := gbIsNilCmp(ft); ok {
+				if gbIsRealmVar(engine.ObjOf(info, x)) && isNilHolds {
+					k.underNil = true
 				}
+				continue // nil tests of m / po / rlm never restrict the invariant's domain beyond the documented skip
 			}
-		}
-		return false
-	}
-	var nilBranch, ownBranch, external int
-	markDirty := f.CallsTo(gbG + "(*Realm).MarkDirty")
-	for _, s := range f.CallsTo("builtin.panic") {
-		gates := g.Gates(s)
-		underNil, underDebug := false, false
-		var conds []engine.Gate
-		for _, gt := range gates {
-			if isRecvNil(gt.Cond, token.EQL) && gt.OnTrue {
-				underNil = true
+			if id, ok := ast.Unparen(ft.E).(*ast.Ident); ok && id.Name == "debugAssert" {
+				if ft.Pos {
+					k.debug = true
+				}
 				continue
 			}
-			if id, ok := ast.Unparen(gt.Cond).(*ast.Ident); ok && id.Name == "debugAssert" {
-				underDebug = true
-			}
-			conds = append(conds, gt)
-		}
-		if underDebug {
-			continue
-		}
-		// classify
-		imm, stdEx, stage, neq := false, false, false, false
-		extra := ""
-		for _, gt := range conds {
-			cnt := 0
-			if f2, neg := hasCall(gt.Cond, gbG+"(PkgID).IsImmutablePkg"); f2 && !neg && gt.OnTrue {
-				imm = true
-				cnt++
-			}
-			if f2, neg := hasCall(gt.Cond, gbG+"(PkgID).IsStdlibPkg"); f2 {
-				// either `&& !IsStdlibPkg()` on the true branch, or `if IsStdlibPkg() {return}` on the false branch
-				if (neg && gt.OnTrue) || (!neg && !gt.OnTrue && len(engine.Atoms(gt.Cond)) == 1) {
-					stdEx = true
-					cnt++
+			if call, ok := gbFactCall(ft); ok {
+				switch gbCalleeName(info, call) {
+				case gbG + "(PkgID).IsImmutablePkg":
+					if ft.Pos {
+						k.imm = true
+						continue
+					}
+				case gbG + "(PkgID).IsStdlibPkg":
+					if !ft.Pos {
+						k.stdNeg = true
+						continue
+					}
+				}
+				if sel, ok := call.Fun.(*ast.SelectorExpr); ok && sel.Sel.Name == "GetIsReal" && ft.Pos {
+					continue
 				}
 			}
-			if stageRun(gt.Cond) && gt.OnTrue {
-				stage = true
-				cnt++
+			if a, b, eq, ok := gbEq(ft); ok {
+				if id, isId := ast.Unparen(b).(*ast.Ident); isId && id.Name == "StageRun" && eq {
+					k.stage = true
+					continue
+				}
+				if id, isId := ast.Unparen(a).(*ast.Ident); isId && id.Name == "StageRun" && eq {
+					k.stage = true
+					continue
+				}
+				if (realmID(a) || realmID(b)) && !eq {
+					k.neq = true
+					continue
+				}
+				if (realmID(a) || realmID(b)) && eq {
+					continue // own-object branch
+				}
 			}
-			if b, ok := ast.Unparen(gt.Cond).(*ast.BinaryExpr); ok && b.Op == token.NEQ && gt.OnTrue && engine.MentionsName(b.Y, "ID") && engine.Mentions(info, b.Y, recv) {
-				neq = true
-				cnt++
-			}
-			if cnt == 0 && !gbNilOrUnrealSkip(gt, info) {
-				extra = engine.ExprString(gt.Cond)
+			if k.extra == "" {
+				pol := ""
+				if !ft.Pos {
+					pol = "not "
+				}
+				k.extra = pol + engine.ExprString(ft.E)
 			}
 		}
+		return k
+	}
+	isPanic := func(fn *engine.Fn, n ast.Node) bool {
+		call, ok := n.(*ast.CallExpr)
+		return ok && engine.IsBuiltinCall(fn.Info(), call, "panic")
+	}
+	markDirty := f.DeepCallsTo(2, gbG+"(*Realm).MarkDirty")
+	var nilBranch, ownBranch, external int
+	var ext *engine.DeepSite
+	for _, ds := range f.DeepFind(3, isPanic) {
+		ds := ds
+		k := classify(gbFactsOf(ds.DeepGates()), false)
+		if k.debug {
+			continue
+		}
 		switch {
-		case underNil && imm && stage:
+		case k.underNil && k.imm && k.stage:
 			nilBranch++
-			ok := stdEx
-			// remaining conditions may only be m != nil / po != nil / po.GetIsReal()
-			c.Check(ruleP, f.Name+" nil-realm branch panic", s.Pos(), ok, "under rlm == nil in StageRun a real object of an immutable non-stdlib package must panic")
-		case !underNil && neq && !imm:
+			c.Check(ruleP, f.Name+" nil-realm branch panic", ds.Inner.Pos(), k.stdNeg, "under rlm == nil in StageRun a real object of an immutable non-stdlib package must panic")
+		case !k.underNil && k.neq && !k.imm:
 			external++
-			ok := stdEx && extra == ""
+			ext = &ds
 			why := "po.PkgID != rlm.ID must panic unless po is stdlib-stamped"
-			if extra != "" {
-				why = "external-realm panic additionally depends on `" + extra + "`"
+			if k.extra != "" {
+				why = "external-realm panic additionally depends on `" + k.extra + "`"
 			}
-			c.Check(ruleBackstop, f.Name+" external-realm panic", s.Pos(), ok, why)
-		case !underNil && imm && stage:
+			c.Check(ruleBackstop, f.Name+" external-realm panic", ds.Inner.Pos(), k.stdNeg && k.extra == "", why)
+		case !k.underNil && k.imm && k.stage:
 			ownBranch++
-			ok := stdEx
-			// must precede MarkDirty(po)
+			ok := k.stdNeg
 			for _, md := range markDirty {
-				if g.ReachableAfter(md, s) && !g.ReachableAfter(s, md) {
+				if g.ReachableAfter(md.Outer, ds.Outer) && !g.ReachableAfter(ds.Outer, md.Outer) {
 					ok = false
 				}
 			}
-			c.Check(ruleP, f.Name+" own-realm branch panic", s.Pos(), ok, "an immutable non-stdlib realm writing its own data in StageRun must panic before MarkDirty")
+			c.Check(ruleP, f.Name+" own-realm branch panic", ds.Inner.Pos(), ok, "an immutable non-stdlib realm writing its own data in StageRun must panic before MarkDirty")
 		}
 	}
 	c.Floor(ruleBackstop, external, 1)
 	c.Floor(ruleP+" nil-realm", nilBranch, 1)
 	c.Floor(ruleP+" own-realm", ownBranch, 1)
-	// MarkDirty(po) is not reachable when po belongs to another realm: the external panic / return gate dominates it
-	for _, md := range markDirty {
-		if len(md.Call.Args) == 1 && engine.ObjOf(info, md.Call.Args[0]) == paramObj(f, 1) {
-			ok := false
-			for _, gt := range g.Gates(md) {
-				if b, isB := ast.Unparen(gt.Cond).(*ast.BinaryExpr); isB && b.Op == token.NEQ && !gt.OnTrue && engine.Mentions(info, b.Y, recv) {
-					ok = true
+
+	// MarkDirty(po) is reachable only when po belongs to the realm.
+	for _, md := range f.CallsTo(gbG + "(*Realm).MarkDirty") {
+		if len(md.Call.Args) != 1 || engine.ObjOf(info, md.Call.Args[0]) != paramObj(f, 1) {
+			continue
+		}
+		ok, why := false, "MarkDirty(po) must be reachable only when po.PkgID == rlm.ID"
+		for _, ft := range gbFactsOf(g.Gates(md)) {
+			if a, b, eq, isEq := gbEq(ft); isEq && eq && (realmID(a) || realmID(b)) {
+				ok, why = true, "po.PkgID == rlm.ID holds at MarkDirty(po)"
+			}
+		}
+		if !ok && ext != nil && ext.Inner != ext.Outer && len(ext.Chain) >= 1 {
+			// ownership test lives in a helper: (1) the helper call dominates MarkDirty, (2) MarkDirty is
+			// on the helper-returned-true side, (3) inside the helper the foreign-object side only
+			// panics or returns false.
+			h := ext.Chain[len(ext.Chain)-1]
+			hg := h.Graph()
+			dom := g.Dominates(ext.Outer, md) || ext.Outer.Block == md.Block
+			trueSide := false
+			for _, ft := range gbFactsOf(g.Gates(md)) {
+				if ast.Unparen(ft.E) == ast.Expr(ext.Outer.Call) && ft.Pos {
+					trueSide = true
 				}
 			}
-			c.Check(ruleBackstop, f.Name+" MarkDirty(po) only for own objects", md.Pos(), ok, "MarkDirty(po) must be reachable only when po.PkgID == rlm.ID")
+			foreignFalse := false
+			for _, gt := range hg.Gates(ext.Inner) {
+				var fs []gbFact
+				gbSplitFact(gt.Cond, gt.OnTrue, &fs)
+				isNeq := false
+				for _, ft := range fs {
+					if a, b, eq, isEq := gbEq(ft); isEq && !eq && (realmID(a) || realmID(b)) {
+						isNeq = true
+					}
+				}
+				if !isNeq || len(gt.Block.Succs) != 2 {
+					continue
+				}
+				side := gt.Block.Succs[1]
+				if gt.OnTrue {
+					side = gt.Block.Succs[0]
+				}
+				foreignFalse = true
+				for _, ex := range gbNormalExits(h) {
+					if !hg.Reach(side, ex, map[*cfgBlock]bool{gt.Block: true}) {
+						continue
+					}
+					r := ex.Return()
+					if r == nil || len(r.Results) != 1 {
+						foreignFalse = false
+						continue
+					}
+					if id, isId := ast.Unparen(r.Results[0]).(*ast.Ident); !isId || id.Name != "false" {
+						foreignFalse = false
+					}
+				}
+			}
+			if dom && trueSide && foreignFalse {
+				ok, why = true, "ownership helper "+h.Name+" dominates MarkDirty(po); it returns false or panics for foreign objects and MarkDirty is on its true side"
+			}
 		}
+		c.Check(ruleBackstop, f.Name+" MarkDirty(po) only for own objects", md.Pos(), ok, why)
 	}
 }
 
-// gbNilOrUnrealSkip: the gate is DidUpdate's `if po == nil || !po.GetIsReal() { return }`
-// (target on the false branch; every disjunct is `x == nil` or `!x.GetIsReal()`).
-func gbNilOrUnrealSkip(gt engine.Gate, info *types.Info) bool {
-	if gt.OnTrue {
-		return false
-	}
-	for _, a := range engine.Conjuncts(gt.Cond, token.LOR) {
-		switch y := ast.Unparen(a).(type) {
-		case *ast.BinaryExpr:
-			if !(y.Op == token.EQL && isNil(y.Y)) {
-				return false
-			}
-		case *ast.UnaryExpr:
-			call, ok := ast.Unparen(y.X).(*ast.CallExpr)
-			if !ok || y.Op != token.NOT {
-				return false
-			}
-			if sel, ok := call.Fun.(*ast.SelectorExpr); !ok || sel.Sel.Name != "GetIsReal" {
-				return false
-			}
-		default:
-			return false
-		}
-	}
-	return true
-}
-
-// gbReadonlyFalseTable: every `return false` ("writable") of the two readonly
-// predicates is reached only under one of the frozen, reasoned conditions.
+// gbReadonlyFalseTable: every verdict of the two readonly predicates that can
+// be "writable" (a `return false`, or a returned comparison) is justified by a
+// frozen, reasoned exemption — decided on the facts holding at the return.
 func gbReadonlyFalseTable(c *engine.Ctx, p *engine.Prog) {
 	commaOkType := func(f *engine.Fn, o types.Object) string {
 		out := ""
+		if o == nil {
+			return out
+		}
 		engine.InspectBody(f, func(n ast.Node) {
 			as, ok := n.(*ast.AssignStmt)
 			if !ok || len(as.Lhs) != 2 || len(as.Rhs) != 1 || engine.ObjOf(f.Info(), as.Lhs[1]) != o {
@@ -1144,58 +1176,58 @@ func gbReadonlyFalseTable(c *engine.Ctx, p *engine.Prog) {
 		})
 		return out
 	}
-	realmNil := func(e ast.Expr) bool {
-		bx, ok := ast.Unparen(e).(*ast.BinaryExpr)
-		if !ok || bx.Op != token.EQL || !isNil(bx.Y) {
-			return false
-		}
-		sel, ok := ast.Unparen(bx.X).(*ast.SelectorExpr)
-		return ok && sel.Sel.Name == "Realm"
+	isSel := func(e ast.Expr, name string) bool {
+		sel, ok := ast.Unparen(e).(*ast.SelectorExpr)
+		return ok && sel.Sel.Name == name
+	}
+	realmNil := func(f *engine.Fn, ft gbFact) bool {
+		x, isNilHolds, ok := gbIsNilCmp(ft)
+		return ok && isNilHolds && isSel(x, "Realm")
+	}
+	ownPkgRef := func(f *engine.Fn, ft gbFact) bool {
+		a, b, eq, ok := gbEq(ft)
+		return ok && eq && isSel(a, "PkgPath") && isSel(b, "PkgPath") && (engine.MentionsName(a, "Package") != engine.MentionsName(b, "Package"))
 	}
 	type shape struct {
 		name string
-		ok   func(f *engine.Fn, gt engine.Gate) bool
+		ok   func(f *engine.Fn, fs []gbFact) bool
+	}
+	anyFact := func(pred func(f *engine.Fn, ft gbFact) bool) func(f *engine.Fn, fs []gbFact) bool {
+		return func(f *engine.Fn, fs []gbFact) bool {
+			for _, ft := range fs {
+				if pred(f, ft) {
+					return true
+				}
+			}
+			return false
+		}
 	}
 	tables := map[string][]shape{
 		gbM + "isReadonly": {
-			{"no active realm (single-user mode)", func(f *engine.Fn, gt engine.Gate) bool { return gt.OnTrue && realmNil(gt.Cond) }},
-			{"package reference to the executing package", func(f *engine.Fn, gt engine.Gate) bool {
-				bx, ok := ast.Unparen(gt.Cond).(*ast.BinaryExpr)
-				if !ok || !gt.OnTrue || bx.Op != token.EQL {
-					return false
-				}
-				l, lok := ast.Unparen(bx.X).(*ast.SelectorExpr)
-				r, rok := ast.Unparen(bx.Y).(*ast.SelectorExpr)
-				return lok && rok && l.Sel.Name == "PkgPath" && r.Sel.Name == "PkgPath" && engine.MentionsName(r, "Package")
-			}},
+			{"no active realm (single-user mode)", anyFact(realmNil)},
+			{"package reference to the executing package", anyFact(ownPkgRef)},
 		},
 		gbM + "isExternalRealm": {
-			{"no active realm (single-user mode)", func(f *engine.Fn, gt engine.Gate) bool { return gt.OnTrue && realmNil(gt.Cond) }},
-			{"base is not an Object", func(f *engine.Fn, gt engine.Gate) bool {
-				u, ok := ast.Unparen(gt.Cond).(*ast.UnaryExpr)
-				if !ok || u.Op != token.NOT || !gt.OnTrue {
-					return false
-				}
-				return strings.HasSuffix(commaOkType(f, engine.ObjOf(f.Info(), u.X)), "gnolang.Object")
-			}},
-			{"transient object (zero object id)", func(f *engine.Fn, gt engine.Gate) bool {
-				call, ok := ast.Unparen(gt.Cond).(*ast.CallExpr)
-				return ok && gt.OnTrue && gbCalleeName(f.Info(), call) == gbG+"(ObjectID).IsZero"
-			}},
-			{"heap item slot (borrowed by PushFrameCall / unreal wrapper)", func(f *engine.Fn, gt engine.Gate) bool {
-				id, ok := ast.Unparen(gt.Cond).(*ast.Ident)
-				return ok && gt.OnTrue && strings.HasSuffix(commaOkType(f, f.Info().ObjectOf(id)), "gnolang.HeapItemValue")
-			}},
-			{"stdlib package writing its own stamped data", func(f *engine.Fn, gt engine.Gate) bool {
-				if !gt.OnTrue {
-					return false
-				}
+			{"no active realm (single-user mode)", anyFact(realmNil)},
+			{"base is not an Object", anyFact(func(f *engine.Fn, ft gbFact) bool {
+				id, ok := ast.Unparen(ft.E).(*ast.Ident)
+				return ok && !ft.Pos && strings.HasSuffix(commaOkType(f, f.Info().ObjectOf(id)), "gnolang.Object")
+			})},
+			{"transient object (zero object id)", anyFact(func(f *engine.Fn, ft gbFact) bool {
+				call, ok := gbFactCall(ft)
+				return ok && ft.Pos && gbCalleeName(f.Info(), call) == gbG+"(ObjectID).IsZero"
+			})},
+			{"heap item slot (borrowed by PushFrameCall / unreal wrapper)", anyFact(func(f *engine.Fn, ft gbFact) bool {
+				id, ok := ast.Unparen(ft.E).(*ast.Ident)
+				return ok && ft.Pos && strings.HasSuffix(commaOkType(f, f.Info().ObjectOf(id)), "gnolang.HeapItemValue")
+			})},
+			{"stdlib package writing its own stamped data", func(f *engine.Fn, fs []gbFact) bool {
 				std, own := false, false
-				for _, cj := range engine.Conjuncts(gt.Cond, token.LAND) {
-					if call, ok := ast.Unparen(cj).(*ast.CallExpr); ok && gbCalleeName(f.Info(), call) == gbG+"(PkgID).IsStdlibPkg" {
+				for _, ft := range fs {
+					if call, ok := gbFactCall(ft); ok && ft.Pos && gbCalleeName(f.Info(), call) == gbG+"(PkgID).IsStdlibPkg" {
 						std = true
 					}
-					if bx, ok := ast.Unparen(cj).(*ast.BinaryExpr); ok && bx.Op == token.EQL && engine.MentionsName(bx.X, "PkgID") && engine.MentionsName(bx.Y, "PkgID") {
+					if a, b, eq, ok := gbEq(ft); ok && eq && engine.MentionsName(a, "PkgID") && engine.MentionsName(b, "PkgID") && (engine.MentionsName(a, "Package") || engine.MentionsName(b, "Package")) {
 						own = true
 					}
 				}
@@ -1203,6 +1235,32 @@ func gbReadonlyFalseTable(c *engine.Ctx, p *engine.Prog) {
 			}},
 		},
 	}
+	// accepted non-constant verdict expressions (value decides, no exemption needed)
+	finalVerdict := func(f *engine.Fn, e ast.Expr, fs []gbFact) (string, bool) {
+		info := f.Info()
+		switch x := ast.Unparen(e).(type) {
+		case *ast.CallExpr:
+			if gbCalleeName(info, x) == gbG+"(*TypedValue).IsReadonlyBy" {
+				return "IsReadonlyBy(realm id, own pkg id)", true
+			}
+		case *ast.BinaryExpr:
+			if x.Op == token.NEQ {
+				// oid.PkgID != m.Realm.ID   (isExternalRealm's final verdict)
+				if engine.MentionsName(x.X, "PkgID") && isSel(x.Y, "ID") && engine.MentionsName(x.Y, "Realm") {
+					return "object's PkgID != active realm id", true
+				}
+				if engine.MentionsName(x.Y, "PkgID") && isSel(x.X, "ID") && engine.MentionsName(x.X, "Realm") {
+					return "object's PkgID != active realm id", true
+				}
+				// rv.PkgPath != m.Package.PkgPath (package reference: writable iff own package)
+				if isSel(x.X, "PkgPath") && isSel(x.Y, "PkgPath") && (engine.MentionsName(x.X, "Package") != engine.MentionsName(x.Y, "Package")) {
+					return "package reference differs from the executing package", true
+				}
+			}
+		}
+		return "", false
+	}
+	floors := map[string]int{gbM + "isReadonly": 3, gbM + "isExternalRealm": 6}
 	for _, name := range []string{gbM + "isReadonly", gbM + "isExternalRealm"} {
 		f := c.MustFunc(name)
 		if f == nil {
@@ -1210,56 +1268,44 @@ func gbReadonlyFalseTable(c *engine.Ctx, p *engine.Prog) {
 		}
 		g := f.Graph()
 		n := 0
-		used := map[string]int{}
 		engine.InspectBody(f, func(x ast.Node) {
 			r, ok := x.(*ast.ReturnStmt)
 			if !ok || len(r.Results) != 1 {
 				return
 			}
-			id, ok := ast.Unparen(r.Results[0]).(*ast.Ident)
-			if !ok || id.Name != "false" {
+			st := f.SiteOf(r)
+			if st == nil {
+				return
+			}
+			fs := gbFactsOf(g.Gates(st))
+			if id, isId := ast.Unparen(r.Results[0]).(*ast.Ident); isId && (id.Name == "true" || id.Name == "false") {
+				if id.Name == "true" {
+					return // readonly verdict never widens write authority
+				}
+				n++
+				reason := ""
+				for _, sh := range tables[name] {
+					if sh.ok(f, fs) {
+						reason = sh.name
+					}
+				}
+				if reason == "" {
+					desc := "unconditionally"
+					if len(fs) > 0 {
+						last := fs[len(fs)-1]
+						desc = "under `" + engine.ExprString(last.E) + "`"
+					}
+					c.Check("readonly-exemptions", f.Name+" writable verdict outside the frozen table", r.Pos(), false, "a `return false` (writable) is reached "+desc+", which matches none of the frozen exemptions")
+					return
+				}
+				c.Check("readonly-exemptions", f.Name+" writable verdict: "+reason, r.Pos(), true, "justified by a frozen exemption")
 				return
 			}
 			n++
-			st := f.SiteOf(r)
-			reason := ""
-			if st != nil {
-				// the innermost gate decides: the last dominating condition before the return
-				gates := g.Gates(st)
-				for i := len(gates) - 1; i >= 0 && reason == ""; i-- {
-					gt := gates[i]
-					if !g.BlockDominates(gt.Block, st.Block) {
-						continue
-					}
-					inner := true
-					for _, o := range gates {
-						if o.Block != gt.Block && g.BlockDominates(gt.Block, o.Block) {
-							inner = false
-						}
-					}
-					if !inner {
-						continue
-					}
-					for _, sh := range tables[name] {
-						if sh.ok(f, gt) {
-							reason = sh.name
-						}
-					}
-					if reason == "" {
-						reason = ""
-						c.Check("readonly-exemptions", f.Name+" writable verdict under `"+gbAtomShape(gt.Cond)+"`", r.Pos(), false, "a `return false` (writable) is reached under `"+engine.ExprString(gt.Cond)+"`, which is not one of the frozen exemptions")
-						return
-					}
-				}
-			}
-			used[reason]++
-			c.Check("readonly-exemptions", f.Name+" writable verdict: "+reason, r.Pos(), reason != "", "every `return false` must be justified by a frozen exemption")
+			what, ok2 := finalVerdict(f, r.Results[0], fs)
+			c.Check("readonly-exemptions", f.Name+" computed verdict: "+gbAtomShape(r.Results[0]), r.Pos(), ok2, "a computed verdict must be one of the accepted ownership comparisons; got `"+engine.ExprString(r.Results[0])+"` "+what)
 		})
-		want := 2
-		if name == gbM+"isExternalRealm" {
-			want = 5
-		}
-		c.Floor("readonly-exemptions "+name, n, want)
+		c.Floor("readonly-exemptions "+name, n, floors[name])
 	}
 	// IsReadonly itself adds no exemption: every return is isReadonly(tv, ownPkgID)
 	if f := c.MustFunc(gbM + "IsReadonly"); f != nil {
